@@ -1041,7 +1041,12 @@ impl Placed {
 
 pub struct FontBuilderHistory;
 
-const FB_TAGS: [[u8; 4]; 14] = [*b"head", *b"CFF ", *b"DSIG", *b"glyf", *b"loca", *b"cmap", *b"OS/2", *b"name", *b"zzzz", *b"AAAA", *b"hhea", *b"maxp", *b"post", *b"a  b"];
+// `head` is the only tag the builder may touch; its look-alikes (Apple's `bhed`, case variants, neighbours in
+// sort order) and every other registered tag must come back byte for byte.
+const FB_TAGS: [[u8; 4]; 30] = [
+    *b"head", *b"CFF ", *b"DSIG", *b"glyf", *b"loca", *b"cmap", *b"OS/2", *b"name", *b"zzzz", *b"AAAA", *b"hhea", *b"maxp", *b"post", *b"a  b",
+    *b"bhed", *b"bhed", *b"HEAD", *b"Head", *b"heae", *b"heac", *b"hdmx", *b"bdat", *b"bloc", *b"CFF2", *b"sbix", *b"COLR", *b"meta", *b"IFT ", *b"IFTX", *b"~~~~",
+];
 
 fn table_bytes(seed: u64, len: u32) -> Vec<u8> {
     Rng::new(seed).bytes(len as usize)
